@@ -53,7 +53,9 @@ Repos ==
     Fam("repos", N2, Ks(N2), {Debug(Http(1, h, Debug(m))) : h \in HopsSmall, m \in Mems(N2)}),
     Fam("repos", N2, Ks(N2), {Unify(m, m2) : m \in Mems(N2), m2 \in Seconds(N2)}),
     Fam("repos", N3, Ks(N3), {Http(1, h, Unify(m, m2)) : h \in HopsSmall, m \in Mems(N3), m2 \in Seconds(N3)}),
-    Fam("repos", N3, Ks(N3), {Unify(Http(1, h, m), Http(2, g, m2)) : h \in HopsSmall, g \in HopsTiny, m \in Mems(N3), m2 \in Seconds(N3)})>>
+    Fam("repos", N3, Ks(N3), {Unify(Http(1, h, m), Http(2, g, m2)) : h \in HopsSmall, g \in HopsTiny, m \in Mems(N3), m2 \in Seconds(N3)}),
+    \* a server that refuses the page size, in front of a unifier with a paged member
+    Fam("repos", N3, {0, 1}, {Http(2, Hop(n, 2, TRUE), Debug(Unify(Http(1, g, m), m2))) : n \in {2, 3}, g \in HopsTiny, m \in Mems(N3), m2 \in Seconds(N3)})>>
 
 \* Sub changes the universe: the view has cnt elements of the N2 underneath
 SubFam(lo, cnt) ==
